@@ -15,7 +15,7 @@
 //	(2) hold, per key, chunk items with indexes 0..m-1 whose concatenated bytes are exactly the JSON stream of
 //	    that sequence, and no chunk of any other key (complete scan of the underlying B-tree).
 //
-// Sig = [<input-class prefix>|]<oracle>|<class>: class is "chunk>512" / "chunk<=512" (largest chunk of the entry)
+// Sig = <oracle>|<class>: class is "chunk>512" / "chunk<=512" (largest chunk of the entry)
 // for decode/operation oracles and "after=<last effective operation on that key>" (Remove, Update-fewer, ...) for
 // the chunk-set oracles.
 package main
@@ -27,6 +27,7 @@ import (
 	"fmt"
 	"io"
 	"os"
+	"regexp"
 	"runtime/debug"
 	"runtime/pprof"
 	"sort"
@@ -369,6 +370,9 @@ func short(s string) string {
 	return fmt.Sprintf("%q", s)
 }
 
+// volatileRe matches what differs from run to run in error texts of the code under test (scratch path, UUIDs).
+var volatileRe = regexp.MustCompile(`/dev/shm/c31_[0-9]+[^ :]*|[0-9a-f]{8}-[0-9a-f]{4}-[0-9a-f]{4}-[0-9a-f]{4}-[0-9a-f]{12}`)
+
 // runProgram executes prog on a new store and checks the final state (every proper prefix is a program of
 // its own). Returns the number of failed oracle checks.
 func runProgram(c *collector, bk string, prog []step, stats map[string]int64) {
@@ -384,29 +388,15 @@ func runProgram(c *collector, bk string, prog []step, stats map[string]int64) {
 	// written sequence relative to the entry it replaced), "Remove", or "untouched".
 	after := map[int]string{0: "untouched", 1: "untouched"}
 	replay := map[string]any{"backend": bk, "program": prog}
-	// A step that only deletes chunk items (Remove of an existing entry, Update/Upsert of an existing entry with
-	// zero values) is a distinct input class: on the infs backends it is a transaction consisting of removals only.
-	// input-class prefix of every violation about a key after such a step (known consequence: the step is lost)
-	const removalOnly = "after-removal-only-transaction-on-actively-persisted-store|"
-	tainted := map[int]bool{} // keys that were the subject of such a step; the marker goes on violations about them
 	cost := progCost(prog)
 	viol := func(ki int, kind, class, detail string) { // ki: the key the violation is about, -1: the whole store
 		stats["failed_checks"]++
 		stats["failed_"+kind]++
-		marker := ""
-		if tainted[ki] || (ki < 0 && len(tainted) > 0) {
-			marker = removalOnly
-		}
-		c.violate(marker+kind+"|"+class, fmt.Sprintf("%s backend, program %v: %s", bk, prog, detail), replay, cost)
+		c.violate(kind+"|"+class, fmt.Sprintf("%s backend, program %v: %s", bk, prog, volatileRe.ReplaceAllString(detail, "<...>")), replay, cost)
 	}
 	for i, s := range prog {
 		old := mdl[s.Key]
 		nw := specsFor(i, s)
-		if len(old) > 0 && (s.Op == "Remove" || ((s.Op == "Update" || s.Op == "Upsert") && len(nw) == 0)) {
-			if bk == "infs-big" {
-				tainted[s.Key] = true
-			}
-		}
 		removed, noop, err := b.apply(i, s)
 		last := i == len(prog)-1
 		assigned := false // the model's entry of s.Key is (re)written or deleted by this step
